@@ -1,6 +1,7 @@
 package drivers
 
 import (
+	"fmt"
 	"encoding/json"
 	"net"
 	"runtime"
@@ -51,14 +52,28 @@ func runSerialCollect(sc int, c *serialCase, emit func(serialEv)) {
 	gate := make(chan struct{})
 	prog := make(chan struct{}, 256)
 	mux := diam.NewServeMux()
-	mux.HandleFunc("ALL", func(_ diam.Conn, m *diam.Message) {
+	mux.HandleFunc("ALL", func(dc diam.Conn, m *diam.Message) {
 		cc, i := int(m.Header.HopByHopID/100), int(m.Header.HopByHopID%100)
 		mu.Lock()
 		rec("enter", cc, i)
 		mu.Unlock()
+		if c.Flavour == "panicreg" && cc == 1 && i == 1 {
+			panic("scripted handler panic") // conn.serve recovers and drops connection 1 only
+		}
+		if c.Flavour == "cn" && i == 1 {
+			// the application watches this connection for disconnects from its first message on: the reader
+			// switches to the notifier's pipe; order and one-at-a-time are unaffected
+			if cn, ok := dc.(diam.CloseNotifier); ok {
+				cn.CloseNotify()
+			}
+		}
 		if cc == c.HoldC && i == c.HoldI {
 			entered <- struct{}{}
 			<-gate
+			if c.Flavour == "regpending" {
+				// the handler files an error report of its own before returning (as the state machine's handlers do)
+				mux.Error(&diam.ErrorReport{Conn: dc, Message: m, Error: fmt.Errorf("scripted report")})
+			}
 		}
 		mu.Lock()
 		rec("exit", cc, i)
@@ -127,6 +142,7 @@ func runSerialCollect(sc int, c *serialCase, emit func(serialEv)) {
 			continue
 		}
 		mc := memnet.NewConn()
+		mc.NewestFirst = c.Flavour == "cn"
 		conns[k] = mc
 		if c.Via == "server" || c.Via == "server+wt" {
 			ln.Push(mc)
@@ -151,6 +167,60 @@ func runSerialCollect(sc int, c *serialCase, emit func(serialEv)) {
 	}
 	regPending := c.Flavour == "regpending" && c.HoldC > 0
 	switch {
+	case c.Flavour == "cn":
+		// message by message: the next one is sent when the previous one has been handled and the reader is
+		// parked again (so the CloseNotify request of the first handler is in effect for the reads that follow)
+		for i := 1; i <= c.Msgs; i++ {
+			for k := 1; k <= c.Conns; k++ {
+				conns[k].Feed(msg(k, i))
+			}
+			deadline := time.Now().Add(time.Second)
+			for time.Now().Before(deadline) {
+				mu.Lock()
+				ok := true
+				for k := 1; k <= c.Conns; k++ {
+					if done[k] < i {
+						ok = false
+					}
+				}
+				mu.Unlock()
+				if ok {
+					break
+				}
+				time.Sleep(200 * time.Microsecond)
+			}
+			for k := 1; k <= c.Conns; k++ {
+				if mc, isMem := conns[k].(*memnet.Conn); isMem {
+					mc.WaitReaderBlocked(500 * time.Millisecond)
+				}
+			}
+		}
+	case c.Flavour == "panicreg":
+		// connection 1's first handler panics; afterwards the application registers a further handler (which must
+		// not wait for anything) and the other connections are served as usual
+		conns[1].Feed(msg(1, 1))
+		if mc, isMem := conns[1].(*memnet.Conn); isMem {
+			mc.WaitClosed(time.Second)
+		}
+		regDone := make(chan struct{})
+		go func() {
+			mux.HandleFunc("ULR", func(diam.Conn, *diam.Message) {})
+			close(regDone)
+		}()
+		select {
+		case <-regDone:
+		case <-time.After(time.Second):
+			mu.Lock()
+			rec("blocked", 2, 0)
+			mu.Unlock()
+		}
+		for k := 2; k <= c.Conns; k++ {
+			var b []byte
+			for i := 1; i <= c.Msgs; i++ {
+				b = append(b, msg(k, i)...)
+			}
+			conns[k].Feed(b)
+		}
 	case regPending:
 		// only the connection whose handler will be held; the others follow once a registration is pending
 		var b []byte
@@ -243,7 +313,7 @@ func runSerialCollect(sc int, c *serialCase, emit func(serialEv)) {
 		mu.Lock()
 		all := true
 		for k := 1; k <= c.Conns; k++ {
-			if done[k] < c.Msgs {
+			if done[k] < c.Msgs && !(c.Flavour == "panicreg" && k == 1) {
 				all = false
 			}
 		}
@@ -270,6 +340,9 @@ func runSerialCollect(sc int, c *serialCase, emit func(serialEv)) {
 	ms := make([]int, c.Conns)
 	for i := range ms {
 		ms[i] = c.Msgs
+	}
+	if c.Flavour == "panicreg" {
+		ms[0] = 0 // connection 1 dies in its first handler
 	}
 	emit(serialEv{Ev: "reset", Sc: sc, Conns: c.Conns, Msgs: ms, Case: c})
 	for _, e := range final {
